@@ -208,6 +208,26 @@ mod replay {
                 println!("REPLAY tlv_try_from hex={} observed={:?}", inputs["hex"], observed);
                 assert!(observed.is_ok(), "SerializedTlvStream::try_from panicked");
             }
+            "get_tu64" => {
+                // C10/C18: a truncated u64 field of 0..=8 bytes is its big-endian value and is
+                // consumed; a longer field is rejected
+                use crate::tlv::ProtoBuf;
+                let bytes = hex::decode(inputs["hex"].as_str().unwrap()).unwrap();
+                let observed = std::panic::catch_unwind(|| {
+                    let mut s: &[u8] = &bytes;
+                    let r = s.get_tu64().map_err(|e| e.to_string());
+                    (r, s.len())
+                });
+                println!("REPLAY get_tu64 hex={} observed={:?}", inputs["hex"], observed);
+                let (r, left) = observed.expect("get_tu64 panicked");
+                if bytes.len() > 8 {
+                    assert!(r.is_err(), "a field longer than 8 bytes was accepted");
+                } else {
+                    let want = bytes.iter().fold(0u64, |a, b| (a << 8) | *b as u64);
+                    assert_eq!(r, Ok(want), "get_tu64 disagrees with the big-endian value");
+                    assert_eq!(left, 0, "get_tu64 did not consume the field");
+                }
+            }
             other => panic!("unknown replay target {:?}", other),
         }
     }
